@@ -148,14 +148,12 @@ impl GraphEngine {
         for &node in &nodes {
             if !state.discovery.contains_key(&node) {
                 self.biconnected_dfs(node, config, &mut state)?;
-            }
-        }
 
-        // Pop any remaining edges on stack
-        if !state.edge_stack.is_empty() {
-            let component: HashSet<(u64, u64)> = state.edge_stack.drain(..).collect();
-            if !component.is_empty() {
-                state.components.push(component);
+                // Edges left on the stack form the last component of this DFS tree
+                if !state.edge_stack.is_empty() {
+                    let component: HashSet<(u64, u64)> = state.edge_stack.drain(..).collect();
+                    state.components.push(component);
+                }
             }
         }
 
@@ -240,12 +238,15 @@ impl GraphEngine {
                     state.bridges.push((u.min(v), u.max(v)));
                 }
             } else if state.parent.get(&u).copied().flatten() != Some(v) {
-                // Back edge
+                // Back edge to an ancestor (seen from the descendant side only)
                 let disc_v = state.discovery.get(&v).copied().unwrap_or(0);
-                let low_u = state.low.get(&u).copied().unwrap_or(0);
-                if disc_v < low_u {
-                    state.low.insert(u, disc_v);
+                let disc_u = state.discovery.get(&u).copied().unwrap_or(0);
+                if disc_v < disc_u {
                     state.edge_stack.push((u.min(v), u.max(v)));
+                    let low_u = state.low.get(&u).copied().unwrap_or(0);
+                    if disc_v < low_u {
+                        state.low.insert(u, disc_v);
+                    }
                 }
             }
         }
